@@ -1,4 +1,5 @@
-"""Checker self-validation (thorough tier): every rule must fire on its seeded mutants.
+"""Checker self-validation (thorough tier): every rule must fire on its seeded mutants, and the property's check must stay
+silent on the behaviour-preserving refactorings kept under refactorings/ (entries whose `expect` is "SILENT").
 A mutant = a patch that compiles, passes kanata's own tests and breaks one rule instance. For each mutant
 of the property under check: copy /repo to a scratch directory outside /repo and /verif, apply the patch,
 extract facts, run the property's quick check, and require a violation whose key contains the expected
@@ -31,6 +32,11 @@ def _one(m, pid):
         r = subprocess.run([os.path.join(VERIF, "check"), pid, "--tier", "quick"], env=env, cwd=VERIF,
                            stdout=subprocess.PIPE, stderr=subprocess.STDOUT, text=True)
         keys = re.findall(r"^\s+key=(\S.*)$", r.stdout, re.M)
+        if m["expect"] == "SILENT":
+            # a behaviour-preserving refactoring: any violation or lost anchor is a false alarm of the checker
+            if r.returncode == 0 and not keys and "BROKEN" not in r.stdout:
+                return m["id"], "silent", ""
+            return m["id"], "false-alarm", "rc=%d keys=%s %s" % (r.returncode, keys[:3], (re.findall(r"BROKEN.*", r.stdout) or [""])[0][:160])
         if "BROKEN" in r.stdout:
             return m["id"], "broken", r.stdout[-400:]
         hit = [k for k in keys if m["expect"] in k]
@@ -51,7 +57,9 @@ def run(pid, workers=4):
             out["selftest_results"].append({"mutant": mid, "status": status, "info": info[:200]})
             if status == "detected":
                 out["selftest_detected"] += 1
-    bad = [r for r in out["selftest_results"] if r["status"] != "detected"]
+            if status == "silent":
+                out["selftest_silent_on_refactorings"] = out.get("selftest_silent_on_refactorings", 0) + 1
+    bad = [r for r in out["selftest_results"] if r["status"] not in ("detected", "silent")]
     if bad:
         raise Broken("checker self-test failed for %s: %s" % (pid, bad))
     return out
